@@ -17,9 +17,6 @@ structure EquivOn (D : α → Prop) (r : α → α → Bool) : Prop where
   symm : ∀ x y, D x → D y → r x y = true → r y x = true
   trans : ∀ x y z, D x → D y → D z → r x y = true → r y z = true → r x z = true
 
-/-- every element of `as` is related to some element of `bs` (the generated O(n²) loop). -/
-def subR (r : α → α → Bool) (as bs : List α) : Bool := as.all fun a => bs.any (r a)
-
 theorem subR_iff (r : α → α → Bool) (as bs : List α) :
     subR r as bs = true ↔ ∀ a ∈ as, ∃ b ∈ bs, r a b = true := by
   simp [subR, List.all_eq_true, List.any_eq_true]
